@@ -29,7 +29,9 @@ def _inputs():
             "m": pt.make_placeholder("m", (3, 4), I32), "n": pt.make_placeholder("n", (3, 1), I32),
             "p": pt.make_placeholder("p", (3, 4), B), "q": pt.make_placeholder("q", (4,), B),
             "z": pt.make_placeholder("z", (4,), C128), "s": pt.make_placeholder("s", (), F64),
-            "t": pt.make_placeholder("t", (2, 3, 4), F64), "sq": pt.make_placeholder("sq", (3, 3), F64)}
+            "t": pt.make_placeholder("t", (2, 3, 4), F64), "sq": pt.make_placeholder("sq", (3, 3), F64),
+            "t2": pt.make_placeholder("t2", (2, 3, 3), F64), "u1": pt.make_placeholder("u1", (3, 1), F64),
+            "u2": pt.make_placeholder("u2", (1, 4), F64), "u3": pt.make_placeholder("u3", (1,), F64)}
 
 
 def api_lambdas():
@@ -95,6 +97,15 @@ def api_lambdas():
     out["astype/f2c"] = x.astype(C128)
     out["zeros_like"] = pt.zeros_like(x)
     out["neg"] = -x
+    # operands with length-1 axes (recognition must not depend on the axis lengths)
+    for nm in ("u1", "u2", "u3"):
+        u = I[nm]
+        out[f"unit/{nm}/neg"], out[f"unit/{nm}/sin"], out[f"unit/{nm}/abs"] = -u, pt.sin(u), pt.abs(u)
+        out[f"unit/{nm}/isnan"], out[f"unit/{nm}/astype"], out[f"unit/{nm}/zeros_like"] = pt.isnan(u), u.astype(np.float32), \
+            pt.zeros_like(u)
+        out[f"unit/{nm}/exp"], out[f"unit/{nm}/add"], out[f"unit/{nm}/where"] = pt.exp(u), u + 1, pt.where(pt.less(u, 0), u, 0.0)
+        out[f"unit/{nm}/sum"], out[f"unit/{nm}/maximum"] = pt.sum(u), pt.maximum(u, 0.5)
+    out["unit/arctan2"] = pt.arctan2(I["u1"], I["u1"] * 2)
     return I, out
 
 
@@ -102,7 +113,7 @@ def near_misses():
     """hand-built index lambdas that must be 'unknown' or read correctly"""
     import pytato as pt
     I = _inputs()
-    x, y, sq, t = I["x"], I["y"], I["sq"], I["t"]
+    x, y, sq, t, t2 = I["x"], I["y"], I["sq"], I["t"], I["t2"]
     import pymbolic.primitives as p
     from pytato.scalar_expr import parse
 
@@ -148,6 +159,10 @@ def near_misses():
     out["reduce_perm"] = red((var("_r0"), var("_0")), {"_r0": (0, 3)}, sq, (3,))
     out["reduce_diag"] = red((var("_r0"), var("_r0")), {"_r0": (0, 3)}, sq, ())
     out["reduce_out_perm"] = red((var("_1"), var("_r0"), var("_0")), {"_r0": (0, 3)}, t, (4, 2))
+    # permuted free axes of *equal* length (shape alone cannot tell them apart)
+    out["reduce_out_perm_eq"] = red((var("_r0"), var("_1"), var("_0")), {"_r0": (0, 2)}, t2, (3, 3))
+    out["reduce_out_perm_eq2"] = red((var("_1"), var("_0"), var("_r0")), {"_r0": (0, 3)}, pt.make_placeholder("t3", (3, 3, 3), F64), (3, 3))
+    out["einsum_kj"] = pt.transform.lower_to_index_lambda.to_index_lambda(pt.einsum("ijk->kj", t2))
     return I, out
 
 
@@ -190,9 +205,10 @@ def raise_job(which: str, names: tuple) -> JobOut:
     from pytato.diagnostic import UnknownIndexLambdaExpr
     from pv import corpus as C
     I, lams = api_lambdas() if which == "api" else near_misses()
-    kinds = {k: __import__("pv.sem.alg", fromlist=["x"]).dtype_kind(v.dtype) for k, v in I.items()} | {"c3": "f"}
+    kinds = {k: __import__("pv.sem.alg", fromlist=["x"]).dtype_kind(v.dtype) for k, v in I.items()} | {"c3": "f", "t3": "f"}
     data = {k: C.default_data(k, tuple(v.shape), v.dtype) for k, v in I.items()}
     data["c3"] = C.default_data("c3", (3,), F64)
+    data["t3"] = C.default_data("t3", (3, 3, 3), F64)
     sides, outputs = [], {}
     for nm in names:
         il = lams[nm]
